@@ -23,6 +23,9 @@ TracesOn == Rec[1].traces
 (* disjunct, so a MISMATCH line is a real rejection                         *)
 Chk(label, cond) == IF cond THEN TRUE ELSE (PrintT(<<"MISMATCH", l, label>>) /\ FALSE)
 
+Item(label, x, cond, expected) ==
+  IF cond THEN TRUE ELSE (PrintT(<<"ITEM", l, label, x, expected>>) /\ FALSE)
+
 Seen(rc) == [status |-> rc.status, logs |-> rc.logs, created |-> rc.created]
 
 -----------------------------------------------------------------------------
@@ -71,7 +74,7 @@ ObsOK(o, S) ==
        \A i \in DOMAIN o.txs :
          LET x == o.txs[i]
              ys == {y \in all : y.tx.id = x.id}
-         IN  IF ys = {}
+         IN  Item("tx", x, IF ys = {}
              THEN ~x.present /\ x.trace = "no"
              ELSE LET y == CHOOSE y \in ys : TRUE IN
                   /\ Cardinality(ys) = 1
@@ -80,18 +83,18 @@ ObsOK(o, S) ==
                   /\ x.from = y.tx.from /\ x.to = y.tx.to /\ x.nonce = y.tx.nonce
                   /\ x.insc = y.tx.insc
                   /\ x.status = y.tx.status /\ x.logs = y.tx.logs /\ x.created = y.tx.created
-                  /\ x.trace = (IF TracesOn THEN "yes" ELSE "no"))
+                  /\ x.trace = (IF TracesOn THEN "yes" ELSE "no"), ys))
   /\ Chk("txs-cover", \A y \in all : \E i \in DOMAIN o.txs : o.txs[i].id = y.tx.id)
   /\ Chk("byidx",
        \A i \in DOMAIN o.byidx :
          LET x == o.byidx[i]
              ys == {y \in all : y.b = x.b /\ y.i = x.i}
-         IN  IF ys = {} THEN x.id = NULL ELSE x.id = (CHOOSE y \in ys : TRUE).tx.id)
+         IN  Item("byidx", x, IF ys = {} THEN x.id = NULL ELSE x.id = (CHOOSE y \in ys : TRUE).tx.id, ys))
   /\ Chk("insc",
        \A i \in DOMAIN o.insc :
          LET x == o.insc[i]
              c == {y \in all : y.tx.insc = x.insc}
-         IN  x.id = (IF c = {} THEN NULL ELSE LatestOf(c).tx.id))
+         IN  Item("insc", x, x.id = (IF c = {} THEN NULL ELSE LatestOf(c).tx.id), c))
   /\ Chk("cinsc",
        \A i \in DOMAIN o.cinsc :
          LET x == o.cinsc[i]
@@ -100,9 +103,9 @@ ObsOK(o, S) ==
          IN  IF c # {} THEN x.insc = LatestOf(c).tx.insc
              ELSE IF failed # {} THEN TRUE      \* a failed creation may or may not leave an entry (unobservable use)
              ELSE x.insc = NULL)
-  /\ Chk("nonces", \A i \in DOMAIN o.nonces : o.nonces[i].n = Nonce(w, o.nonces[i].a))
-  /\ Chk("code", \A i \in DOMAIN o.code : o.code[i].c = CodeObs(Code(w, o.code[i].a)))
-  /\ Chk("cells", \A i \in DOMAIN o.cells : o.cells[i].v = Cell(w, o.cells[i].a, o.cells[i].s))
+  /\ Chk("nonces", \A i \in DOMAIN o.nonces : Item("nonce", o.nonces[i], o.nonces[i].n = Nonce(w, o.nonces[i].a), Nonce(w, o.nonces[i].a)))
+  /\ Chk("code", \A i \in DOMAIN o.code : Item("code", o.code[i], o.code[i].c = CodeObs(Code(w, o.code[i].a)), Code(w, o.code[i].a)))
+  /\ Chk("cells", \A i \in DOMAIN o.cells : Item("cell", o.cells[i], o.cells[i].v = Cell(w, o.cells[i].a, o.cells[i].s), Cell(w, o.cells[i].a, o.cells[i].s)))
   /\ Chk("pool",
        {<<o.pool[i].signer, o.pool[i].nonce, o.pool[i].id>> : i \in DOMAIN o.pool}
          = {<<k[1], k[2], S.pool[k].id>> : k \in DOMAIN S.pool})
@@ -110,13 +113,13 @@ ObsOK(o, S) ==
   /\ Chk("logs",
        \A i \in DOMAIN o.logs :
          LET x == o.logs[i] IN
-         x.h <= H => x.logs = FlatLogs(S.chain[x.h + 1].txs, 1, 0))
+         x.h <= H => Item("logs", x, x.logs = FlatLogs(S.chain[x.h + 1].txs, 1, 0), FlatLogs(S.chain[x.h + 1].txs, 1, 0)))
   /\ Chk("ledger-bal",
        o.boundary => \A i \in DOMAIN o.ledger.bals :
-         LET x == o.ledger.bals[i] IN x.v = Bal(w, x.t, x.a))
+         LET x == o.ledger.bals[i] IN Item("bal", x, x.v = Bal(w, x.t, x.a), Bal(w, x.t, x.a)))
   /\ Chk("ledger-supply",
        o.boundary => \A i \in DOMAIN o.ledger.supply :
-         LET x == o.ledger.supply[i] IN x.tok = Tok(w, x.t) /\ x.v = Supply(w, x.t))
+         LET x == o.ledger.supply[i] IN Item("supply", x, x.tok = Tok(w, x.t) /\ x.v = Supply(w, x.t), <<Tok(w, x.t), Supply(w, x.t)>>))
   /\ Chk("flags", \A f \in DOMAIN o.flags : IF o.flags[f] THEN TRUE ELSE (PrintT(<<"FLAG", l, f>>) /\ FALSE))
 
 Post == [chain |-> chain', cur |-> cur', world |-> world', pool |-> pool']
